@@ -259,13 +259,11 @@ func (h *c02H) runCustom(x *vx.X) vx.Result {
 
 	sc := c02AgentScript{ExitAfter: -1}
 	desc := []string{"init:" + c02CustomInit[ii].Name}
-	var evName string
 	if c02CustomInit[ii].Lines != nil {
 		sc.Replies = append(sc.Replies, c02CustomInit[ii].Lines)
 		if ii == 0 {
 			pre := c02CustomPre[x.In(len(c02CustomPre))]
 			ev := finals[x.In(len(finals))]
-			evName = ev.Name
 			desc = append(desc, "pre:"+pre.Name, ev.Name)
 			lines := append([]string{}, pre.Lines...)
 			if ev.Lines != nil {
@@ -309,7 +307,6 @@ func (h *c02H) runCustom(x *vx.X) vx.Result {
 		res.Counters["oracle.failure_clause_evaluated"] = 1
 		res.Counters["oracle.failure_clause.final_before_"+before.class()] = 1
 	}
-	_ = evName
 	return res
 }
 
